@@ -436,6 +436,10 @@ func run(c *core.Child) {
 					vs[i].varsets = append(vs[i].varsets, typedoc.Assignment(c.RNG(4, uint64(si), uint64(di), uint64(bits)), m, d, d.Ops[0], uint64(bits)))
 				}
 			}
+			// near-collision variants of one document are always drawn together
+			for i := range vs {
+				vs[i].group = fmt.Sprintf("variants-%d", di)
+			}
 			pool = append(pool, vs...)
 		}
 		// generated documents with several operations, each requested by name
@@ -482,18 +486,32 @@ func run(c *core.Child) {
 				}
 			}
 		}
+		var groups []string
+		seenGroup := map[string]bool{}
+		for _, q := range pool {
+			if q.group != "" && !seenGroup[q.group] {
+				seenGroup[q.group] = true
+				groups = append(groups, q.group)
+			}
+		}
 		for hi := 0; hi < nHist; hi++ {
 			id := fmt.Sprintf("s%d/h%d", si, hi)
 			if !c.Begin(id) {
 				continue
 			}
 			hr := c.RNG(5, uint64(si), uint64(hi))
-			history(c, hr, m, vseed, pool, histLen, id)
+			// every group of related queries is the core of some history: the
+			// groups are handed out round-robin over (child, history index)
+			forced := ""
+			if len(groups) > 0 {
+				forced = groups[(hi+c.Batch*nHist)%len(groups)]
+			}
+			history(c, hr, m, vseed, pool, histLen, id, forced)
 		}
 	}
 }
 
-func history(c *core.Child, r *core.RNG, m *model.Schema, vseed uint64, pool []query, n int, id string) {
+func history(c *core.Child, r *core.RNG, m *model.Schema, vseed uint64, pool []query, n int, id string, forced string) {
 	// cache side: up to 3 builds of the same model (same shape, different pointers)
 	// Each build has its own value universe, so a plan bound to one schema
 	// but served for another shows in the response; the from-scratch side is
@@ -532,6 +550,17 @@ func history(c *core.Child, r *core.RNG, m *model.Schema, vseed uint64, pool []q
 	perm := r.Perm(len(pool))
 	sub := make([]query, 0, k)
 	inSub := map[int]bool{}
+	if forced != "" {
+		for j := range pool {
+			if pool[j].group == forced {
+				inSub[j] = true
+				sub = append(sub, pool[j])
+			}
+		}
+		if k > 4 {
+			k = 4 // a few more queries around the forced group: its members are requested often
+		}
+	}
 	for _, i := range perm[:k] {
 		if inSub[i] {
 			continue
@@ -852,6 +881,12 @@ func probeQueries() []query {
 		}
 		if strings.HasPrefix(n, "default-") {
 			q.varsets = []map[string]interface{}{{}, {"v": nil}}
+		}
+		// probes that differ in one literal / default / directive belong together
+		for _, pre := range []string{"default-changed", "default-object", "directive-literal", "collide-list-split"} {
+			if strings.HasPrefix(n, pre) {
+				q.group = "probe-" + pre
+			}
 		}
 		out = append(out, q)
 	}
